@@ -167,6 +167,59 @@ def main(argv):
                 advs = ";".join(",".join(hx(("%s:%s" % ((ip if use_vpc else h), p)).encode()) for h, ip, p in nodes) for nodes in hist)
                 lines.append(f"aws.reconf advs={advs}")
                 metas.append(("reconf", {"use_vpc": use_vpc, "history": desc}, sorted(client.hasher.nodes)))
+    # a node REPLACED BEHIND ITS HOST NAME (the usual ElastiCache node replacement: same name and port, new machine): names are resolved through the
+    # fake resolver, which follows the advertised list, so a connection is identified by the machine (IP) it reached.  After reconfigure_nodes()
+    # no command may reach the replaced machine any more, its connection must be closed, and the new machine gets the name's keys.
+    for use_vpc in (False, True):
+        for nkeep in (0, 1, 2):
+            for nrepl in (1, 2):
+                C = Cluster(rng)
+                W = C.world
+                base = [("node%d.abc.cache.amazonaws.com" % i, "10.1.0.%d" % (10 + i), 11211) for i in range(nkeep + nrepl)]
+                after = [(h, ip if i < nkeep else "10.2.0.%d" % (10 + i), p) for i, (h, ip, p) in enumerate(base)]
+                dns = {}
+
+                def resolve(host, port, _dns=dns):
+                    import socket as _s
+                    return [(_s.AF_INET, _s.SOCK_STREAM, _s.IPPROTO_TCP, "", (_dns.get(host, host), port))]
+                W.addrinfo = resolve
+                C.advertised = list(base)
+                dns.update({h: ip for h, ip, p in base})
+                case = {"use_vpc": use_vpc, "before": [f"{h.split('.')[0]}|{ip}|{p}" for h, ip, p in base], "after": [f"{h.split('.')[0]}|{ip}|{p}" for h, ip, p in after]}
+                ctx.case(("replaced-behind-name", use_vpc, nkeep, nrepl))
+                ctx.count("replaced-behind-host-name")
+                try:
+                    W.tag = "before"
+                    client = AWSElastiCacheHashClient(CFG, socket_module=C.sm, use_vpc=use_vpc, default_noreply=False, retry_attempts=0, dead_timeout=0)
+                    for k in keys:
+                        client.set(k, b"v", noreply=False)
+                    C.advertised = list(after)
+                    C.version += 1
+                    dns.update({h: ip for h, ip, p in after})
+                    W.tag = "reconf"
+                    client.reconfigure_nodes()
+                    for srv in C.servers.values():
+                        del srv.cmds[:]
+                    W.tag = "after"
+                    for k in keys:
+                        client.set(k, b"w", noreply=False)
+                        client.get(k)
+                except Exception as e:
+                    ctx.violation("a node replaced behind its host name: the scenario raised", dict(case, error=repr(e)[:100]), tags=["replaced-behind-name"])
+                    continue
+                new_machines = {(ip, str(p)) for h, ip, p in after}
+                old_only = {(ip, str(p)) for h, ip, p in base} - new_machines
+                served = {addr for addr, srv in C.servers.items() if srv.cmds}
+                still_open = sorted((str(c.addr[0]), str(c.addr[1])) for c in W.conns if c.addr is not None and not c.closed and (str(c.addr[0]), str(c.addr[1])) in old_only)
+                bad = None
+                if served & old_only:
+                    bad = f"commands still reach the replaced machine(s) {sorted(served & old_only)}"
+                elif still_open:
+                    bad = f"connection(s) to the replaced machine(s) {still_open} are still open"
+                elif not (new_machines - {(ip, str(p)) for h, ip, p in base}) <= served and len(keys) >= 60 and len(after) <= 2:
+                    bad = f"the new machine(s) {sorted(new_machines - served)} get no traffic"
+                if bad:
+                    ctx.violation("a node replaced behind its host name: " + bad, case, tags=["replaced-behind-name"])
     # failover episode + scale-down: a node that was marked dead and is then no longer advertised must stay out for good
     import pymemcache.client.hash as H
     clock = [1000.0]
